@@ -2,14 +2,14 @@ SPECIFICATION Spec
 CONSTANTS
   GseLenMax = 4095
   TotalLenMax = 65535
-  MaxPdus = 3
+  MaxPdus = 5
   FragIds = {0, 1}
   Slots = 2
   QLen = 2
   Loss = TRUE
-  Dup = FALSE
+  Dup = TRUE
   Maxes = {1}
-  Export = FALSE
-  Depth = 0
-INVARIANTS AttributionUnderLoss
+  Export = TRUE
+  Depth = 16
+INVARIANTS ExportInv
 CHECK_DEADLOCK FALSE
